@@ -180,7 +180,11 @@ def comb_cases(draw, tier):
                 seed=draw(st.integers(0, 2 ** 32 - 1)),
                 arr=draw(st.sampled_from([False, False, True])),
                 ret_arr=(comb != 'not') and draw(st.sampled_from([False, False, False, True])),
-                second=draw(st.sampled_from(['none', 'exit', 'fail'])))
+                second=draw(st.sampled_from(['none', 'exit', 'fail'])),
+                # members written in the usual in-place style (they modify and return their argument)
+                inplace=draw(st.sampled_from([False, False, True])),
+                # the same combinator object is then called on further inputs (a schedule of calls)
+                more=draw(st.lists(st.lists(pool_or_float(CVALS, -5, 5), min_size=dim, max_size=dim), min_size=0, max_size=3)))
 
 
 RANDOM_NAMES = ['random', 'randint', 'randrange', 'choice', 'choices', 'uniform', 'sample', 'shuffle',
@@ -212,11 +216,15 @@ def counting_random(seed, log):
         random.setstate(state)
 
 
-def _live(k, spec, log, ret_arr):
+def _live(k, spec, log, ret_arr, inplace=False):
     def c(x):
         xin = [t for t in x]
         out = apply(spec, xin)
         log.append(('call', k, out == xin))
+        if inplace:
+            for i_, t_ in enumerate(out):
+                x[i_] = t_
+            return x
         return np.array(out, float) if ret_arr else out
     c.__doc__ = None
     return c
@@ -226,7 +234,7 @@ def _execute(case, mode):
     import mystic.constraints as MC
     specs = case['members']
     log = []; fired = []; rets = []
-    members = [_live(k, s, log, case['ret_arr']) for k, s in enumerate(specs)]
+    members = [_live(k, s, log, case['ret_arr'], case.get('inplace', False)) for k, s in enumerate(specs)]
 
     def mk(tag):
         def cb(v):
@@ -246,9 +254,19 @@ def _execute(case, mode):
         f = getattr(MC, case['comb'] + '_')(*members, **kw)
     x0 = FL(case['x'])
     xin = np.array(x0, float) if case['arr'] else list(x0)
+    later = []
     with counting_random(case['seed'], log):
         out = f(xin)
-    return out, fired, rets, log
+        # further calls of the same object: (input, what fired, log of that call)
+        for xm in case.get('more', []) if mode == 'both' else []:
+            xm = FL(xm)
+            n_f, n_l = len(fired), len(log)
+            f(np.array(xm, float) if case['arr'] else list(xm))
+            later.append((xm, fired[n_f:], log[n_l:]))
+        del fired[1:]
+    _execute.later = later
+    n1 = len(log) - sum(len(l_[2]) for l_ in later)
+    return out, fired, rets, log[:n1]
 
 
 def _classify(specs):
@@ -316,6 +334,29 @@ def run_comb(case, ctx):
         else:
             ctx.expect(not fix[0], 'C17.not_changed_nonidem' if nonidem else 'C17.not_changed',
                        lambda: dict(base(), v=v, fixed=fix))
+
+    # a schedule of calls on the same combinator object: every later call is judged like the first
+    for xm, fired_m, log_m in getattr(_execute, 'later', []):
+        ctx.expect(len(fired_m) == 1, 'C17.one_callback_once', lambda: dict(base(), later_input=xm, fired=[(t, list(w)) for t, w in fired_m]))
+        if len(fired_m) != 1:
+            continue
+        kind_m, vm = fired_m[0]
+        vm = [float(t) for t in vm]
+        fix_m = [fixes(s_, vm) for s_ in specs]
+        if kind_m == 'exit':
+            ctx.label('later-call:exit')
+            if comb == 'and':
+                ctx.expect(all(fix_m), 'C17.and_fixed_point', lambda: dict(base(), later_input=xm, v=vm, fixed=fix_m, note='later call on the same object'))
+            elif comb == 'or':
+                ctx.expect(any(fix_m), 'C17.or_fixed_point_nonidem' if nonidem else 'C17.or_fixed_point',
+                           lambda: dict(base(), later_input=xm, v=vm, fixed=fix_m, note='later call on the same object'))
+            else:
+                ctx.expect(not fix_m[0], 'C17.not_changed_nonidem' if nonidem else 'C17.not_changed',
+                           lambda: dict(base(), later_input=xm, v=vm, fixed=fix_m, note='later call on the same object'))
+        if any(e[0] == 'draw' for e in log_m):
+            ctx.label('later-call:draws>0')
+    if case.get('inplace'):
+        ctx.label('inplace-members', '%s:inplace' % comb)
 
     # the callbacks are optional: same seed, same members, fewer callbacks -> same vector, same path
     mode = case['second']
